@@ -175,12 +175,12 @@ CLAIMS["C04"] = (
 
 # clauses added by later seed rounds (appended to the level text)
 EXTRA = {
-    "C01": "The suffix rule itself is `suffixes.iter().any(|s| key.ends_with(s))` on the registered name and the stored suffix as they are.",
-    "C02": "`x[i]` and `x[a:b:c]` push only the Ok payload of the one typed lookup (Value::get_item / Value::slice) on the popped base, so its type errors are raised, never coerced to undefined.",
+    "C01": "The suffix rule itself is `suffixes.iter().any(|s| key.ends_with(s))` on the registered name and the stored suffix as they are. The default escaper writes input bytes raw only one at a time behind its five-way switch, or as a run cleared by a search that stops at all five specials.",
+    "C02": "The fused LoadPath arm keeps the one-level-of-undefined rule (C09.FUSED, shared). `x[i]` and `x[a:b:c]` push only the Ok payload of the one typed lookup (Value::get_item / Value::slice) on the popped base, so its type errors are raised, never coerced to undefined.",
     "C03": "`loop.X` is rewritten exactly under `is_in_loop()`, which is a pure membership test for an enclosing for loop (captures in between do not hide it).",
-    "C04": "Every path through the RenderBlock arm to the next instruction runs the block (no block is stepped over).",
-    "C05": "The VM a component body runs in takes tera, template, the escaping override and the include depth from the calling VM.",
-    "C08": "The three whitespace decisions of a raw block read the dash at their own position (provenance against skip_tag's after-the-name flag).",
+    "C04": "Every path through the RenderBlock arm to the next instruction runs the block (no block is stepped over); the current block name is set for the nested run and the enclosing one put back on every path.",
+    "C05": "The VM a component body runs in takes tera, template, the escaping override and the include depth from the calling VM. The component-priority table of finalize_templates holds (template, its priority) pairs, changed only by inserting a whole pair, an existing one only on the strictly-higher-precedence edge.",
+    "C08": "The fusion pass moves text instructions along unchanged (C09.ONLY, shared). The three whitespace decisions of a raw block read the dash at their own position (provenance against skip_tag's after-the-name flag).",
     "C09": "The fused WritePath arm branches on the same two answers as WriteTop (VirtualMachine::autoescape_enabled(), Value::is_safe()).",
     "C10": "add_file answers Ok only after the insert, with the insert's previous value (what the undo log records).",
     "C12": "An error of a nested render (include, component) leaves the interpreter only through the place that adds the `called from` note.",
